@@ -366,8 +366,10 @@ def contractExecute (code : Code) (fuel : Nat) (t : ContractTx) (raw : Nat) (v :
   let r := match t.target with
     | none => evmCreateTop code fuel t.src v t.init s
     | some a => evmCallTop code fuel t.src a v s
-  let feeUsed : Nat := t.gasUsed * gasPrice
-  -- accountdb.SubBalance(source, gasFeeUsed) — result dropped — then AddBalance(FeeAccount, gasFeeUsed)
+  let want : Nat := t.gasUsed * gasPrice
+  -- gasFeeUsed is clamped to the sender's balance (second `fix:` commit of known-findings.txt), then
+  -- accountdb.SubBalance(source, gasFeeUsed) — result dropped — and AddBalance(FeeAccount, gasFeeUsed)
+  let feeUsed : Nat := if get r.1.bal t.src < want then get r.1.bal t.src else want
   let b2 := addBal (subBal r.1.bal t.src feeUsed).1 feeAccount feeUsed
   ({ r.1 with bal := b2 }, r.2, some t.gasUsed)
 
